@@ -173,8 +173,12 @@ def run_case(case):
             discs.append(Disc('encode-mismatch', '%s %r: encoded %s, spec %s' % (kind, _short(f), got.hex()[:80], want.hex()[:80]),
                               _finding(kind, f, 'encode-mismatch', got)))
     except Exception as e:
-        discs.append(Disc('encode-raises', '%s %r: %s: %s' % (kind, _short(f), type(e).__name__, e),
-                          _finding(kind, f, 'encode-raises')))
+        if len(want) > 253:
+            # the field values do not fit any PDU (the specification defines none for them): refusing to encode is as good as encoding
+            labels.append('oversize-message-refused')
+        else:
+            discs.append(Disc('encode-raises', '%s %r: %s: %s' % (kind, _short(f), type(e).__name__, e),
+                              _finding(kind, f, 'encode-raises')))
 
     # (b) decode direction
     if case.get('custom_on_other_decoder'):
@@ -185,7 +189,9 @@ def run_case(case):
     dec = ServerDecoder() if kind.startswith('req') else ClientDecoder()
     try:
         msg = dec.decode(want)
-        if msg is None:
+        if msg is None and len(want) > 253:
+            labels.append('oversize-pdu-refused')
+        elif msg is None:
             discs.append(Disc('decode-none', '%s: decoder returned None for spec PDU %s' % (kind, want.hex()[:80]),
                               _finding(kind, f, 'decode-none')))
         else:
@@ -199,8 +205,11 @@ def run_case(case):
                     discs.append(Disc('decode-fields', '%s: wire fields %r decoded as %r' % (kind, _short(f), _short(f2)),
                                       _finding(kind, f, 'decode-fields', f2)))
     except Exception as e:
-        discs.append(Disc('decode-raises', '%s: decoding spec PDU %s raised %s: %s' % (kind, want.hex()[:80], type(e).__name__, e),
-                          _finding(kind, f, 'decode-raises')))
+        if len(want) > 253:
+            labels.append('oversize-pdu-refused')
+        else:
+            discs.append(Disc('decode-raises', '%s: decoding spec PDU %s raised %s: %s' % (kind, want.hex()[:80], type(e).__name__, e),
+                              _finding(kind, f, 'decode-raises')))
     return Outcome(discs, labels, nontrivial(kind, f))
 
 
